@@ -642,12 +642,12 @@ def run(ctx):
     broken = ctx.translate()
     res = ctx.coq_props()
     proof_ok = res['ok'] and not broken
+    fut_chk = None
     if not quick and proof_ok and hasattr(ctx, 'coqchk'):
+        # the independent checker re-runs the two exhaustive sweeps with its own (slow) evaluator: ~12 min, in the background
+        chk_pool = cf.ThreadPoolExecutor(max_workers=1)
         t_chk = time.time()
-        if not ctx.coqchk():
-            proof_ok = False
-            res['audit'].append('coqchk rejected the compiled closure of Props/%s.vo' % ctx.pid)
-        ctx.log("coqchk took %.0fs" % (time.time() - t_chk))
+        fut_chk = chk_pool.submit(ctx.coqchk)
 
     binp, blog = ctx.harness('release')
     if binp is None:
@@ -986,6 +986,12 @@ def run(ctx):
         ctx.add_sample(dict(op='c16-sys', mode=c['mode'], doc=c['doc'][:600], ts=list(c['ts'])))
     if acases:
         ctx.add_sample(dict(op='c16-apply', kind=acases[-1]['kind'], doc=acases[-1]['doc'][:400], src=acases[-1]['src']))
+
+    if fut_chk is not None:
+        if not fut_chk.result():
+            proof_ok = False
+            res['audit'].append('coqchk rejected the compiled closure of Props/C16.vo')
+        ctx.log("coqchk finished %.0fs after its start" % (time.time() - t_chk))
 
     # ============================================================== protocol for broken proofs / ties
     if not proof_ok or not model_ok:
